@@ -155,6 +155,8 @@ class Coop:
         if len(en) > 1:
             self.both.append(len(self.trace))
         self.trace.append(ch)
+        if len(self.trace) > 20000:      # livelock guard: no program of the harness needs this many steps
+            return None
         return ch
 
     def switch(self, cond=None):
